@@ -220,6 +220,7 @@ def c05e(F, R):
             R.bad(f"{name}|shape", "UNEXTRACTABLE: the worklist loop does not re-fill its queue with `extend`", f["sp"])
             continue
         blk = blocks[0]
+        lets_ = local_inits(blk)
         stmts = blk.get("stmts", []) + ([{"k": "Expr", "e": blk["expr"]}] if blk.get("expr") else [])
         ext = next(i for i, s in enumerate(stmts) if direct_extend(s))
         seen_found = False
@@ -236,8 +237,9 @@ def c05e(F, R):
             if cond is None:
                 R.bad(f"{name}|cut|unconditional", f"{name}: the search stops unconditionally before following the next nodes", loc(s))
                 continue
-            calls = {m["name"] for m in walk(cond, pats=False) if m.get("k") == "MethodCall"}
-            if "contains" in calls and any(x.get("k") == "Path" and x.get("res") == "visited" or "HashSet" in (x.get("ty") or "") for x in walk(cond, pats=False)) and found_call not in calls and not (calls & {"kill_reg", "gen_reg", "writes_to", "reads_from"}):
+            # a named sub-expression of the test (`let hit = prev.writes_to().filter(..); if let Some(reg) = hit`) is read through its name
+            calls = {m["name"] for m in walk_expanded(cond, lets_) if m.get("k") == "MethodCall"}
+            if "contains" in calls and any(x.get("k") == "Path" and x.get("res") == "visited" or "HashSet" in (x.get("ty") or "") for x in walk_expanded(cond, lets_)) and found_call not in calls and not (calls & {"kill_reg", "gen_reg", "writes_to", "reads_from"}):
                 if seen_found:
                     R.bad(f"{name}|cut|visited-late", f"{name}: the visited test comes after the node was already examined", loc(s))
                 else:
@@ -254,6 +256,84 @@ def c05e(F, R):
                       + (" (a read-modify-write instruction both uses and redefines the register; the use comes first)" if "kill_reg" in calls or "writes_to" in calls else ""), loc(s))
         if n < 2:
             R.bad(f"{name}|cuts", f"{name}: expected the visited cut and the found cut, saw {n}", f["sp"])
+        # ... and the operand handed back is an operand that names the register asked for
+        from .p_parse import parent_map
+        fbody = f["hir"]["value"]
+        pm_ = parent_map(fbody)
+        params = [p_.get("name") for p_ in f["hir"].get("params", []) if p_.get("k") == "PBinding"]
+        item = next((p_["name"] for p_ in f["hir"].get("params", []) if p_.get("k") == "PBinding" and (p_.get("ty") or "").endswith("register::Register")), None)
+        if item is None:
+            R.bad(f"{name}|pushed|shape", "UNEXTRACTABLE: no Register parameter", f["sp"])
+            continue
+        all_lets = local_inits(fbody)
+
+        def rooted(e, names):
+            e = peel(e)
+            while e.get("k") in ("AddrOf", "DropTemps", "Use") or (e.get("k") == "Unary" and e.get("op") == "Deref") or (e.get("k") == "MethodCall" and e["name"] in ("get", "get_cloned", "clone", "borrow") and not e["args"]):
+                e = peel(e.get("e") or e.get("a") or e.get("recv"))
+            return e.get("k") == "Path" and e.get("res_kind") == "Local" and e.get("res") in names
+
+        def eq_item(c, names):
+            c = peel(c)
+            while c.get("k") in ("DropTemps", "Use"):
+                c = peel(c["e"])
+            if c.get("k") == "Binary" and c["op"] == "And":
+                return eq_item(c["a"], names) or eq_item(c["b"], names)
+            if c.get("k") != "Binary" or c["op"] != "Eq":
+                return False
+            return (rooted(c["a"], names) and rooted(c["b"], {item})) or (rooted(c["b"], names) and rooted(c["a"], {item}))
+
+        def under_eq(node, names):
+            return any(want and eq_item(c, names) for c, want in path_constraints(pm_, node))
+
+        def selected(e, depth=0):
+            """the Option / iterator expression e yields only operands equal to `item`"""
+            for m in walk_expanded(e, all_lets):
+                if m.get("k") == "MethodCall" and m["name"] in ("filter", "find") and m["args"]:
+                    cl = peel(m["args"][0])
+                    if cl.get("k") == "Closure" and len(cl.get("params", [])) == 1 and eq_item(cl["body"], {b_["name"] for b_ in walk(cl["params"][0]) if b_.get("k") == "PBinding"}):
+                        return True
+            e0 = peel(e)
+            if e0.get("k") == "Path" and e0.get("res_kind") == "Local" and depth < 2:
+                # a mutable `found` that is only ever set to Some(x) where x == item
+                asg = [a for a in walk(fbody, pats=False) if a.get("k") == "Assign" and ekey(a["l"]) == e0["res"]]
+                if asg and all(any(under_eq(a, {y["res"]}) for y in walk(a["r"], pats=False) if y.get("k") == "Path" and y.get("res_kind") == "Local") for a in asg):
+                    return True
+            return False
+        pushes = [m for m in walk(fbody, pats=False) if m.get("k") == "MethodCall" and m["name"] in ("push", "push_back", "insert", "extend") and ekey(m["recv"]).lstrip("&*") == "ranges"]
+        if not pushes:
+            R.bad(f"{name}|pushed|none", f"{name} never hands back an operand", f["sp"])
+        for m in pushes:
+            a = peel(m["args"][-1])
+            while a.get("k") in ("AddrOf",) or (a.get("k") == "MethodCall" and a["name"] in ("clone",) and not a["args"]):
+                a = peel(a.get("e") or a.get("recv"))
+            okp = False
+            if a.get("k") == "Path" and a.get("res_kind") == "Local":
+                x = a["res"]
+                if under_eq(m, {x}):
+                    okp = True
+                else:
+                    # where x is bound: `if let Some(x) = E` / `let Some(x) = E else ..` / `for x in E`
+                    up = m
+                    while id(up) in pm_ and not okp:
+                        up = pm_[id(up)]
+                        cands = []
+                        if up.get("k") == "If" and peel(up["cond"]).get("k") == "LetExpr":
+                            cands.append((peel(up["cond"])["pat"], peel(up["cond"])["init"]))
+                        if up.get("k") == "Block":
+                            cands += [(st["pat"], st["init"]) for st in up.get("stmts", []) if st.get("k") == "Let" and st.get("init") is not None]
+                        for pat_, init_ in cands:
+                            if any(b_.get("k") == "PBinding" and b_["name"] == x for b_ in walk(pat_)) and selected(init_):
+                                okp = True
+                    for lp in for_loops(fbody):
+                        if lp["pat"] is not None and any(b_.get("k") == "PBinding" and b_["name"] == x for b_ in walk(lp["pat"])) and any(y is m for y in walk(lp["body"], pats=False)) and selected(lp["iter"]):
+                            okp = True
+            elif selected(a):
+                okp = True
+            if okp:
+                R.ok(f"{name}|pushed|{ekey(a)}", detail=f"`{ekey(a)}` is handed back only where it names `{item}`", where=loc(m))
+            else:
+                R.bad(f"{name}|pushed|{ekey(a)}", f"{name} hands back `{ekey(a)}` without having tested that it names the register `{item}` it was asked about: the diagnostic is then placed on an operand of another register (or on another instruction)", loc(m))
 
 
 @rule("C05", "C05.i.no-arithmetic-write-escapes-the-zero-register-check", floor=2)
